@@ -472,3 +472,73 @@ def k1_dead_code(res, tier):
         elif r.kind in ('oob', 'unreachable', 'ub', 'diverge', 'depth'):
             res.fail(f'C15.K1:dead_code:{r.kind}', f'apply_stack_effects: path ends in {r.kind}: {str(r.info)[:200]}', {'path': str(r.info)})
     summarize_paths(res, e, results, lambda r: r.info if isinstance(r.info, dict) else None, key_prefix='C15.K1:dead_code:', unwind_ok=False)
+
+
+# ---------------------------------------------------------------------------------------------- K1 a declaration always creates the local
+@obligation('C15.K1.declaration_creates_local', 'C15', programs=('vm',), also=('C16',))
+def k1_declaration_creates_local(res, tier):
+    """Compiler::declare_local_variable and declare_and_define_parameter from MIR for any number of existing locals (the limit and
+    beyond included): on every returning path, the one that reports "too many local variables" included, the local is created
+    (push_local runs once) — the compiler goes on after a diagnostic and its later lookups of the name (variable_get / variable_set,
+    resolve_local) end in a host panic when the local does not exist"""
+    from .compabs import CompilerWorld
+    P = get_program('vm')
+    res.bounds = {'existing locals': 'any number', 'symbol state': 'any'}
+    res.assumptions = ['the resolver has put the name into the innermost symbol table (the lookup in the table answers Some)']
+    for fname in ('declare_local_variable', 'declare_and_define_parameter'):
+        f = P.lookup('compiler::Compiler::' + fname)
+        if f is None:
+            res.inconclusive(f'Compiler::{fname} not located')
+            continue
+        e = Engine(P, loop_bound=4, timeout_s=120, max_depth=40)
+        CW = CompilerWorld(e, P)
+
+        def ev(kind, ret=None):
+            def m(e_, a, c):
+                e_.path_state['order'].append(kind)
+                return UNIT if ret is None else ret(e_, a, c)
+            return m
+        e.model(r'^(compiler::)?Compiler::push_local$', ev('push_local'))
+        e.model(r'^(compiler::)?Compiler::error$', ev('error'))
+        e.model(r'^(compiler::)?Compiler::emit_byte$', ev('emit'))
+
+        def m_get(e_, a, c):
+            oty = norm_ty(c.dest_ty)
+            return e_.mk_option(e_, oty, e_.fresh(ty_args(oty)[0], e_.fresh_name('symbol')))
+        e.model(r'^(compiler::)?(ir::)?(symbol_table::)?SymbolTable::get$', m_get)
+
+        def m_resolve_local(e_, a, c):
+            # the local that was just pushed is found (a lookup before the push finds nothing: that is the panic the obligation is about)
+            oty = norm_ty(c.dest_ty)
+            if 'push_local' not in e_.path_state['order']:
+                return e_.mk_option(e_, oty)
+            return e_.mk_option(e_, oty, e_.fresh(ty_args(oty)[0], e_.fresh_name('slot')))
+        e.model(r'^(compiler::)?Compiler::resolve_local$', m_resolve_local)
+        e.allow_havoc(r'^(std|alloc|core)::fmt::', r'^format$', r'^must_use$', r'Arguments::', r'^<(std::string::|alloc::string::)?String as .*>::\w+$',
+                      r'^(std::string::|alloc::string::)?String::\w+$', r'^(laythe_core::)?(object::)?(fun::)?FunBuilder::name$', r'^(compiler::)?(ir::)?(symbol_table::)?Symbol::\w+$',
+                      r'^(std::ptr::|core::ptr::)?drop_in_place$')
+
+        def path(e, f=f, fname=fname):
+            c = CW.fresh_compiler(e)
+            e.path_state['order'] = []
+            # the assertion about the scope depth of parameters is the caller's business
+            sdp = CW.field(e, c, 'scope_depth')
+            e.assume(z3.UGT(sdp, 1))
+            lt = CW.field(e, c, 'local_tables')
+            if hasattr(lt, 'len'):
+                e.assume(z3.UGE(lt.len, 1))
+            args = [Ref(Cell(c))]
+            for i, (an, aty) in enumerate(f.args[1:]):
+                args.append(e.fresh(aty, f'arg{i}'))
+            e.call(f, args)
+            order = e.path_state['order']
+            e.check(order.count('push_local') == 1, f'Compiler::{fname}: the local is created on every path, also after the too-many-locals diagnostic',
+                    {'events': order})
+            return {'fn': fname, 'diagnostic': 'error' in order}
+        results = e.explore(path)
+        for r in results:
+            if r.kind in ('oob', 'unreachable', 'ub', 'diverge', 'depth'):
+                res.fail(f'C15.K1:{fname}:{r.kind}', f'Compiler::{fname}: path ends in {r.kind}: {str(r.info)[:200]}', {'path': str(r.info)})
+        if not any(isinstance(r.info, dict) and r.info.get('diagnostic') for r in results if r.kind == 'ok'):
+            res.inconclusive(f'Compiler::{fname}: the path with the too-many-locals diagnostic was not reached')
+        summarize_paths(res, e, results, lambda r: r.info if isinstance(r.info, dict) else None, key_prefix=f'C15.K1:{fname}:', unwind_ok=False)
